@@ -193,5 +193,27 @@ UNITS += [
 """),
 ]
 
+UNITS += [
+    Unit(name="apply_config", file=CO, anchor="pub(crate) fn apply_config<S: Open>(", ret_name="r",
+         functions=["commands::config::apply_config"],
+         rewrites=[
+             R_ERR,
+             Rw("fn apply_config<S: Open>(", "fn apply_config(", sig=True, why="Repository<S> -> repository stub"),
+             Rw("repo: &mut Repository<S>", "repo: &mut VRepo", sig=True, why="Repository<S> -> repository stub"),
+             Rw("repo.config().clone()", "vclone_config(repo.config())", why="#[derive(Clone)] (dropped by extraction)"),
+             Rw("opts.apply(&mut new_config)?;", "vapply(opts, &mut new_config)?;", why="ConfigOptions::apply through its contract (unit `apply`)"),
+             Rw("&new_config == repo.config()", "vconfig_eq(&new_config, repo.config())", why="#[derive(PartialEq)] (dropped by extraction)"),
+             Rw("repo.set_config(new_config.clone());", "repo.set_config(vclone_config(&new_config));", why="#[derive(Clone)]"),
+             Rw("save_config(repo, new_config, *repo.dbe().key())?;", "save_config(repo, new_config, repo.dbe().key())?;", why="key passed by reference (Copy type in the original)"),
+         ],
+         contract="""
+    ensures
+        /*@refused_change_leaves_config_untouched*/ r is Err ==> final(repo).cfg == old(repo).cfg || accepted(final(repo).cfg),
+        /*@append_only_refuses_before_any_effect*/ old(repo).cfg.append_only == Some(true) && opts.set_append_only != Some(false) ==> r is Err && final(repo).cfg == old(repo).cfg,
+        /*@unchanged_config_is_not_saved*/ r == Ok::<bool, Box<RusticError>>(false) ==> final(repo).cfg == old(repo).cfg,
+        /*@stored_config_is_an_accepted_one*/ r == Ok::<bool, Box<RusticError>>(true) ==> accepted(final(repo).cfg),
+"""),
+]
+
 KANI = []
 META = {"not_covered": []}
